@@ -77,7 +77,7 @@ def run(ctx):
         for b in (blobs if th else rng.sample(blobs, min(2, len(blobs)))):
             mp.append(e.scn(sh, "samereg", "mountpolicy", mount=1, mount_decline_n=[b], conc=rng.choice([1, 3, 16]),
                             mode=rng.choice(["random", "fifo", "ungated"])))
-    res = bres + e.run(scripts + mx + mx2 + extra + tr + mp, "minimal")
+    res = bres + e.run(scripts + mx + mx2 + extra + tr + mp + e.round4("round4"), "minimal")
 
     acc, rej = e.validate(res, "C14", max_reports=40)
     e.check_stalls()
